@@ -144,6 +144,7 @@ def runStep (r : Run) (op : Op) : Run :=
       else if !proofsOk then some "proofs"
       else if !wfPost then some "wf"
       else if !decide (LInv s') then some "linv"
+      else if !structOk s' then some "struct"   -- the strengthened invariant proved inductive (`inv_preserved`)
       else none
     -- refinement L2 → L1 (`abs_commutes`) and preservation of the invariant, checked at run time on
     -- every well-formed pre-state
